@@ -281,6 +281,22 @@ def run_case(case):
             out.append(("C06:reading-changed-the-response:%s" % name,
                         "%s: (frame value, length, error flag, .value) were %r; after reading every public attribute once they "
                         "are %r and the caller's frame is %r" % (where, before, after, mine)))
+    # ---- a copy of a response (copy / deepcopy / pickle round trip, as a queue between threads or processes makes)
+    #      interprets the same outcome the same way
+    if (v or 0) % 5 == 0 and (fr is None or type(fr).__module__ == "dali.frame"):
+        import copy
+        import pickle
+        for how, fn in (("copy.copy", copy.copy), ("copy.deepcopy", copy.deepcopy), ("pickle round trip", lambda x: pickle.loads(pickle.dumps(x)))):
+            try:
+                c = fn(r_cls(fr))
+                same = type(c) is r_cls and probe(c) == first and ((c.raw_value is None) == (fr is None)) and \
+                    (fr is None or (c.raw_value.as_integer == fr.as_integer and c.raw_value.error == fr.error))
+            except Exception as e:  # noqa
+                out.append(("C06:clone-raised:%s" % type(e).__name__, "%s: %s raised %r" % (where, how, e)))
+                break
+            if not same:
+                out.append(("C06:clone-differs:%s" % name, "%s: %s gives %r with .value %r; the original: %r" % (where, how, c, probe(c), first)))
+                break
     # ---- every other way of rendering as text: repr, format, containers, %-formatting
     for how, fn in (("repr()", lambda: repr(r)), ("format()", lambda: format(r)), ("'%r'", lambda: "%r" % (r,)),
                     ("'%s'", lambda: "%s" % (r,)), ("f'{!r}'", lambda: "{!r}".format(r)), ("str([r])", lambda: str([r])),
